@@ -473,7 +473,7 @@ func c16ExitStatus(r *an.Run, m *runModel) {
 			if c, ok := v.(*ssa.Call); ok && an.IsCallTo(c, "go.uber.org/multierr.Combine") {
 				combines = true
 			}
-			if fa, ok := v.(*ssa.FieldAddr); ok && fieldNameOf(fa) == "errors" && strings.HasSuffix(an.ShortType(fa.X.Type()), "patchRunner") {
+			if fa, ok := v.(*ssa.FieldAddr); ok && isRunnerErrors(r, fa) {
 				hasRunner = true
 			}
 		}
@@ -483,7 +483,7 @@ func c16ExitStatus(r *an.Run, m *runModel) {
 				if len(c.Common().Args) > 0 && an.Unwrap(c.Common().Args[0]) == ssa.Value(m.acc.obj) && !m.loop.Loop.Blocks[c.Block()] {
 					for _, a := range c.Common().Args[1:] {
 						for v := range an.BackSlice(a, an.SliceOpts{ThroughMemory: true}) {
-							if fa, ok := v.(*ssa.FieldAddr); ok && fieldNameOf(fa) == "errors" && strings.HasSuffix(an.ShortType(fa.X.Type()), "patchRunner") {
+							if fa, ok := v.(*ssa.FieldAddr); ok && isRunnerErrors(r, fa) {
 								hasRunner = true
 							}
 						}
